@@ -116,6 +116,40 @@ fn verify_once(ctx: &mut Ctx, n: usize, pi_rows: &[usize], npi_given: usize, ver
     json!({"stage": "verify", "result": match r { Ok(()) => "Ok".to_string(), Err(e) => format!("Err({:?})", e) }})
 }
 
+/// `verify_labels <hex,hex,...>`: several verifiers with different labels are built
+/// and used IN ONE PROCESS, in the given order (process-global state such as label
+/// caches is part of the behaviour); reports the label bytes each transcript absorbed.
+pub fn run_verify_labels(ctx: &mut Ctx, args: &[String]) {
+    let labels: Vec<Vec<u8>> = args[0]
+        .split(',')
+        .map(|h| (0..h.len() / 2).map(|i| u8::from_str_radix(&h[2 * i..2 * i + 2], 16).unwrap()).collect())
+        .collect();
+    #[cfg(feature = "sym")]
+    dusk_bls12_381::sym::set_transcript_symbolic(true);
+    let mut out = vec![];
+    for l in labels.iter() {
+        #[cfg(feature = "sym")]
+        {
+            let (res, _) = dusk_bls12_381::sym::explore(1, false, || verify_once(ctx, 4, &[1], 1, "3", l));
+            for (_t, _p, r, ev) in res {
+                let first = ev.iter().filter_map(|e| serde_json::from_str::<Value>(e).ok()).next();
+                let absorbed = first
+                    .and_then(|e| e.get("history").and_then(|h| h.get(0)).cloned())
+                    .unwrap_or(Value::Null);
+                out.push(json!({"label": l.iter().map(|b| format!("{:02x}", b)).collect::<String>(),
+                                "first_absorbed": absorbed,
+                                "result": r.ok()}));
+            }
+        }
+        #[cfg(not(feature = "sym"))]
+        {
+            let r = verify_once(ctx, 4, &[1], 1, "3", l);
+            out.push(json!({"label": l.iter().map(|b| format!("{:02x}", b)).collect::<String>(), "result": r}));
+        }
+    }
+    ctx.out_json("labels", Value::Array(out));
+}
+
 /// `verify <n> <pi_rows comma list or -> <npi_given> <version> [all]`
 pub fn run_verify(ctx: &mut Ctx, args: &[String]) {
     let n: usize = args[0].parse().unwrap();
